@@ -260,6 +260,10 @@ type c05Case struct {
 
 var arithRoot = ArithParser()
 
+// arithSplitRoot: same language, one left-recursive alternative per operator, and the root wrapped in text.Trim the way
+// examples/json does it (RightTrim then sees an alternative LIST whose first alternative is not the longest)
+var arithSplitRoot = func() parsley.Parser { return ArithParserSplit() }()
+
 func c05One(res *explore.Result, s string, verbose bool) arithKind {
 	kind, want, dzAt := arithClassify(s)
 	fs, _, r, _ := place(placements[0], "f", []byte(s))
@@ -273,6 +277,18 @@ func c05One(res *explore.Result, s string, verbose bool) arithKind {
 		return kind
 	}
 	res.Add("library_calls", int64(ctx.CallCount()))
+	if len(s) <= c05SplitMaxLen {
+		// the same input through the per-operator formulation of the grammar: same verdict, same value, same report
+		fs2, _, r2, _ := place(placements[0], "f", []byte(s))
+		var v2 interface{}
+		var e2 error
+		if pm := guard(func() { v2, e2 = parsley.Evaluate(parsley.NewContext(fs2, r2), arithSplitRoot) }); pm != "" {
+			res.Violate("panic", fmt.Sprintf("per-operator grammar: Evaluate(%s) panicked: %s", q(s), pm), cs)
+		} else if kind != arithUnspecified && ((e2 == nil) != (err == nil) || (e2 == nil && v2 != val) || (kind == arithDivZero && e2 != nil && err != nil && e2.Error() != err.Error())) {
+			res.Violate("grammar-formulations-disagree", fmt.Sprintf("Evaluate(%s): one alternative per operator gives %v, %v; operators as one alternative gives %v, %v", q(s), v2, e2, val, err), cs)
+		}
+		res.Add("per_operator_grammar_runs", 1)
+	}
 	if verbose {
 		res.Notes = append(res.Notes, fmt.Sprintf("input %s: reference kind=%d value=%d div0@%d; library value=%v err=%v", q(s), kind, want, dzAt, val, err))
 	}
@@ -294,7 +310,8 @@ func c05One(res *explore.Result, s string, verbose bool) arithKind {
 		} else {
 			// history: the same expression as SECOND file of a set whose first file was evaluated (and failed) just
 			// before; then the first file once more. Every report must name its own file's line:column.
-			fa, fb := text.NewFile("f", []byte("2\n/0")), text.NewFile("f", []byte(s))
+			// (file names a formatting shortcut would trip over)
+			fa, fb := text.NewFile("%d.expr", []byte("2\n/0")), text.NewFile("100%", []byte(s))
 			fs2 := parsley.NewFileSet(fa, fb)
 			step := func(f *text.File, want string, what string) {
 				var e2 error
@@ -304,9 +321,9 @@ func c05One(res *explore.Result, s string, verbose bool) arithKind {
 					res.Violate("division-by-zero-report", fmt.Sprintf("file set [\"2\\n/0\", %s], %s: got %v, expected %q", q(s), what, e2, want), cs)
 				}
 			}
-			step(fa, "division by zero at f:2:1", "first file evaluated first")
-			step(fb, wantText, "second file evaluated after the first")
-			step(fa, "division by zero at f:2:1", "first file evaluated again")
+			step(fa, "division by zero at %d.expr:2:1", "first file evaluated first")
+			step(fb, fmt.Sprintf("division by zero at 100%%:%d:%d", line, col), "second file evaluated after the first")
+			step(fa, "division by zero at %d.expr:2:1", "first file evaluated again")
 			res.Add("two_file_histories", 1)
 		}
 	case arithIllFormed:
@@ -316,6 +333,9 @@ func c05One(res *explore.Result, s string, verbose bool) arithKind {
 	}
 	return kind
 }
+
+// c05SplitMaxLen: inputs up to this length (and all family members below 80 bytes) also go through the per-operator grammar
+var c05SplitMaxLen = 80
 
 var c05Symbols = []string{"0", "1", "2", "9", "+", "-", "*", "/", "(", ")", " ", "\n"}
 
